@@ -1,5 +1,6 @@
 import Proofs.TraceFin
 import Proofs.SrcCompileLinesInc
+import Proofs.IncLines
 import Proofs.C07First
 import Proofs.SrcShiftSource
 /-!
@@ -164,6 +165,16 @@ theorem compileSource_elines (delims : List Bytes) (src : Bytes) (line : Nat) (r
   rw [hcl] at this
   exact fun x hx => hd.etokLines x (this x hx)
 
+/-- a source that compiles: every include node of the tree stands at the line of a tag token named `include`
+    and carries that token's argument text -/
+theorem compileSource_ilines (delims : List Bytes) (src : Bytes) (line : Nat) (root : List Node)
+    (hc : compileSource delims src line = .ok root) : ∀ x, x ∈ ilinesList root → IncTokLine (scan delims src line) x := by
+  rw [compileSource_eq_compileTokens] at hc
+  obtain ⟨_, ast, hd, hcl⟩ := compileTokens_ok hc
+  have := ipost_compileList (itokLinesList ast) ast (fun _ hx => hx)
+  rw [hcl] at this
+  exact fun x hx => hd.itokLines x (this x hx)
+
 /-- a source that does not compile: the error stands at the line of a tag or object token and names the path -/
 theorem compileSource_err_line (delims : List Bytes) (src : Bytes) (line : Nat) (e : SErr)
     (hc : compileSource delims src line = .err e) : TagObjLine (scan delims src line) e.line ∧ e.pathSet = true := by
@@ -198,24 +209,34 @@ theorem tagObjLine_split (delims : List Bytes) (src : Bytes) (line : Nat) (x : N
   obtain ⟨h5, h6⟩ := scan_split_located delims src line pre rest t hs htr
   exact ⟨pre, t, rest, hs, hty, hl, h5, h6⟩
 
+/-- the same for a tag named `include`, with its argument text -/
+theorem incTokLine_split (delims : List Bytes) (src : Bytes) (line : Nat) (x : Nat × Bytes) (h : IncTokLine (scan delims src line) x) :
+    ∃ pre t rest, scan delims src line = pre ++ t :: rest ∧ t.ty = .tag ∧ t.name = nmInclude ∧ t.line = x.1 ∧ t.args = x.2 ∧
+      t.line = line + countNL (srcs pre) ∧ src = srcs pre ++ (t.source ++ srcs rest) := by
+  obtain ⟨t, ht, hl, ha, hty, hn⟩ := h
+  obtain ⟨pre, rest, hs⟩ := List.append_of_mem ht
+  have htr : t.isTrim = false := by simp [Token.isTrim, hty]
+  obtain ⟨h5, h6⟩ := scan_split_located delims src line pre rest t hs htr
+  exact ⟨pre, t, rest, hs, hty, hn, hl, ha, h5, h6⟩
+
 /-- `ErrAt cfg fs src line x`: the line `x` is reached from the source `src`, parsed at start line `line`, along a
-    chain of files: `x` is the line of a tag or object token of `src` — the start line plus the newlines before the
-    token — (`here`), or there is a tag or object token `t` of `src` and a file of the file system (on disk, else
-    in the cache) such that `x` is reached in the same way from the file's source parsed at start line `t.line`
-    (`inFile`: `RenderFile` compiles an included file at the line of the include tag). -/
+    chain of included files: `x` is the line of a tag or object token of `src` — the start line plus the newlines
+    before the token — (`here`), or `src` has a tag token `t` NAMED `include` and the file system holds (on disk, else
+    in the cache) a file `dir(path)/rel` such that `x` is reached in the same way from the file's source parsed at
+    start line `t.line` (`inFile`: `RenderFile` compiles an included file at the line of the include tag). -/
 inductive ErrAt (cfg : Cfg) (fs : FS) : Bytes → Nat → Nat → Prop where
   | here (src : Bytes) (line : Nat) (pre : List Token) (t : Token) (rest : List Token) :
       scan cfg.delims src line = pre ++ t :: rest → (t.ty = .tag ∨ t.ty = .obj) →
       t.line = line + countNL (srcs pre) → src = srcs pre ++ (t.source ++ srcs rest) → ErrAt cfg fs src line t.line
-  | inFile (src : Bytes) (line : Nat) (pre : List Token) (t : Token) (rest : List Token) (f src' : Bytes) (x : Nat) :
-      scan cfg.delims src line = pre ++ t :: rest → (t.ty = .tag ∨ t.ty = .obj) →
+  | inFile (src : Bytes) (line : Nat) (pre : List Token) (t : Token) (rest : List Token) (rel src' : Bytes) (x : Nat) :
+      scan cfg.delims src line = pre ++ t :: rest → t.ty = .tag → t.name = nmInclude →
       t.line = line + countNL (srcs pre) → src = srcs pre ++ (t.source ++ srcs rest) →
-      fileSource fs f = some src' → ErrAt cfg fs src' t.line x → ErrAt cfg fs src line x
+      fileSource fs (joinPath (dirPath cfg.path) rel) = some src' → ErrAt cfg fs src' t.line x → ErrAt cfg fs src line x
 
 theorem ErrAt.ge {cfg : Cfg} {fs : FS} {src : Bytes} {line x : Nat} (h : ErrAt cfg fs src line x) : line ≤ x := by
   induction h with
   | here src line pre t rest _ _ hl _ => rw [hl]; exact Nat.le_add_right _ _
-  | inFile src line pre t rest f src' x _ _ hl _ _ _ ih => rw [hl] at ih; exact Nat.le_trans (Nat.le_add_right _ _) ih
+  | inFile src line pre t rest rel src' x _ _ _ hl _ _ _ ih => rw [hl] at ih; exact Nat.le_trans (Nat.le_add_right _ _) ih
 
 /-- every error of `run` names the configured path — also an error that comes out of an included file, at every
     include depth (induction over the include levels left) -/
@@ -238,9 +259,9 @@ theorem run_error_pathSet (P : Prims) (O : OutPrims) (cfg : Cfg) (fs : FS) (fuel
         cases h
         obtain ⟨se, hse, hok⟩ := render_error_eline_or_handler (mkCtx P O cfg fs 0) (incQuiet_mkCtx P O cfg fs 0) root env out _ hr
         cases hse
-        rcases hok with ⟨_, h2⟩ | ⟨line', _, f, env', hh⟩
+        rcases hok with ⟨_, h2⟩ | ⟨la, _, s', _, rel, _, _, hh⟩
         · exact h2
-        · obtain ⟨n, _, _, hn, _⟩ := handlerEnds_incFuel P O cfg fs 0 line' f env' _ hh
+        · obtain ⟨n, _, _, hn, _⟩ := handlerEnds_incFuel P O cfg fs 0 la.1 (joinPath (dirPath cfg.path) rel) s'.env _ hh
           cases hn
       · next out c hr =>
         obtain ⟨se, hse, _⟩ := render_error_eline_or_handler (mkCtx P O cfg fs 0) (incQuiet_mkCtx P O cfg fs 0) root env out _ hr
@@ -263,14 +284,14 @@ theorem run_error_pathSet (P : Prims) (O : OutPrims) (cfg : Cfg) (fs : FS) (fuel
         cases h
         obtain ⟨se, hse, hok⟩ := render_error_eline_or_handler (mkCtx P O cfg fs (m + 1)) (incQuiet_mkCtx P O cfg fs (m + 1)) root env out _ hr
         cases hse
-        rcases hok with ⟨_, h2⟩ | ⟨line', _, f, env', hh⟩
+        rcases hok with ⟨_, h2⟩ | ⟨la, _, s', _, rel, _, _, hh⟩
         · exact h2
-        · obtain ⟨n, src', e', hn, _, hrun', hloc⟩ := handlerEnds_incFuel P O cfg fs (m + 1) line' f env' _ hh
+        · obtain ⟨n, src', e', hn, _, hrun', hloc⟩ := handlerEnds_incFuel P O cfg fs (m + 1) la.1 (joinPath (dirPath cfg.path) rel) s'.env _ hh
           simp only [Loc.mk.injEq] at hloc
           have hnm : n = m := by omega
           subst hnm
           rw [hloc.2]
-          exact ih src' line' env' e' hrun'
+          exact ih src' la.1 s'.env e' hrun'
       · next out c hr =>
         obtain ⟨se, hse, _⟩ := render_error_eline_or_handler (mkCtx P O cfg fs (m + 1)) (incQuiet_mkCtx P O cfg fs (m + 1)) root env out _ hr
         cases hse
